@@ -62,11 +62,11 @@ def batch(prop, tier, sd):
             # all n<=2 and a seeded third of n=3
             ex = [d for d in ex if len(d['providers']) <= 2] + rng.sample([d for d in ex if len(d['providers']) == 3], 30)
         out += ex
-        nrand = 130 if quick else 500
+        nrand = 130 if quick else 360
         for i in range(nrand):
             out.append(ds.random_decl(rng, 'r%04d' % i, nmin=3, nmax=8, p_fallible=0.0, p_async=rng.choice([0.45, 0.6, 0.8]),
                                       zero_in_async=rng.choice([0, 0, 1, 2, 3])))
-        for i in range(25 if quick else 150):
+        for i in range(25 if quick else 100):
             out.append(ds.tree_decl(rng, 't%04d' % i, n=rng.randint(4, 7)))
         for i in range(4 if quick else 24):
             out.append(ds.wide_decl(rng, 'w%04d' % i, width=(rng.randint(11, 14) if i % 4 else rng.randint(8, 10)), sync_root=(i % 3 != 2)))
@@ -658,7 +658,7 @@ def run(prop, tier, sd, rep, clauses, modes):
             rep.notes.append('the generator plans %d of %d declarations differently from Planner.tla (outside the modelled design; '
                              'informational): %s' % (len(pdiff), nchk, pdiff[:8]))
         dnmax = 4 if quick else 5
-        dcap = None if quick else int(os.environ.get('VERIF_DESIGN_CAP', '9000'))
+        dcap = None if quick else int(os.environ.get('VERIF_DESIGN_CAP', '6000'))
         dbyid, dprogs, dsigs, dstates, dtrans, ddropped = design.explore(w, prop, clauses, modes, signature, dnmax, sd, dcap, p_fall=0.2 if prop == 'C07' else 0.5)
         for sig, occ in sorted(dsigs.items()):
             if sig in real_sigs:
